@@ -439,7 +439,7 @@ func (sp *Specs) LoadSpecFile(path string, pkgPath string, external bool) error 
 			} else {
 				cur.Captured = append(cur.Captured, cl)
 			}
-		case "requires", "ensures", "invariant", "decreases", "modifies":
+		case "requires", "ensures", "invariant", "auxinvariant", "decreases", "modifies":
 			if cur == nil {
 				return fail(fmt.Errorf("%s outside a func block", word))
 			}
@@ -458,9 +458,14 @@ func (sp *Specs) LoadSpecFile(path string, pkgPath string, external bool) error 
 				} else {
 					cur.Modifies = append(cur.Modifies, cl)
 				}
-			case "invariant":
+			case "invariant", "auxinvariant":
 				if curLoop == nil {
 					return fail(fmt.Errorf("invariant outside a loop section"))
+				}
+				if word == "auxinvariant" {
+					// an invariant about an incidental local: dropped when it cannot be evaluated any more (the local
+					// was renamed or removed); the obligations it helped then have to stand on their own
+					cl.Kind = "hint"
 				}
 				curLoop.Invariants = append(curLoop.Invariants, cl)
 			case "decreases":
